@@ -74,6 +74,7 @@ Lemma ae_commit_same okr s2 s8 tr8 fs8 a : same s8 s2 -> body_same s2 (ae_commit
 Proof.
   intros F. unfold ae_commit.
   destruct ((0 <? aq_commit a) && (v_commit s8 <? aq_commit a)); [|simpl; exact F].
+  cbv zeta. destruct (v_commit s8 <? _); [|simpl; exact F].
   match goal with |- context [process_logs ?S ?I] => destruct (process_logs S I) as [[s11 tra]|] eqn:EP end.
   - apply process_logs_same in EP. simpl. eapply same_trans; [exact EP|].
     eapply same_trans; [|exact F]. destruct (v_latestIdx _ <=? _); repeat split.
